@@ -32,9 +32,10 @@ type (
 		Args []Expr
 	}
 	EQuant struct {
-		Forall bool
-		Vars   []QVar
-		Body   Expr
+		Forall   bool
+		Vars     []QVar
+		Body     Expr
+		Triggers []Expr // optional instantiation patterns: forall x int {f(x)} :: body
 	}
 )
 
@@ -119,7 +120,7 @@ func lex(src string) ([]tok, error) {
 			out = append(out, tok{"str", sb.String()})
 			i = j + 1
 		default:
-			ops := []string{"<==>", "==>", "::", "==", "!=", "<=", ">=", "&&", "||", "(", ")", "[", "]", ".", ",", "<", ">", "+", "-", "*", "/", "%", "!", ":"}
+			ops := []string{"{", "}", "<==>", "==>", "::", "==", "!=", "<=", ">=", "&&", "||", "(", ")", "[", "]", ".", ",", "<", ">", "+", "-", "*", "/", "%", "!", ":"}
 			matched := false
 			for _, op := range ops {
 				if strings.HasPrefix(src[i:], op) {
@@ -195,6 +196,18 @@ func (p *parser) expr() Expr {
 				continue
 			}
 			break
+		}
+		if p.isOp("{") {
+			p.next()
+			for {
+				q.Triggers = append(q.Triggers, p.expr())
+				if p.isOp(",") {
+					p.next()
+					continue
+				}
+				break
+			}
+			p.expectOp("}")
 		}
 		p.expectOp("::")
 		q.Body = p.expr()
